@@ -352,8 +352,79 @@ impl Property for C05 {
                     return out;
                 }
                 // id-less data / keys referenced from main annotations use temporary ids: resolvable as handles stay equal
+                let mut expected_order: Option<(Vec<usize>, Vec<usize>)> = None;
                 let mut sub = doc.clone();
                 let mut main = serde_json::json!({"@type": "AnnotationStore", "@include": "sub.store.stam.json", "resources": [], "annotationsets": []});
+                // resources and datasets that no sub-store annotation needs stay with the main store
+                // (the sub-store must be loadable on its own: everything its annotations refer to lives in it)
+                {
+                    let mut need_res: std::collections::BTreeSet<usize> = Default::default();
+                    let mut need_set: std::collections::BTreeSet<usize> = Default::default();
+                    // closure over the first k annotations (they can only refer to earlier annotations)
+                    for a in original.anns.iter().take(k) {
+                        for l in a.target.leaves() {
+                            match l {
+                                crate::model::MSel::Text { res, .. } | crate::model::MSel::Res(res) => {
+                                    need_res.insert(*res);
+                                }
+                                crate::model::MSel::Ann { text: Some((res, ..)), .. } => {
+                                    need_res.insert(*res);
+                                }
+                                crate::model::MSel::Set(s) | crate::model::MSel::Key(s, _) | crate::model::MSel::Data(s, _) => {
+                                    need_set.insert(*s);
+                                }
+                                _ => {}
+                            }
+                        }
+                        for (s_, _) in &a.data {
+                            need_set.insert(*s_);
+                        }
+                    }
+                    let mut main_res = vec![];
+                    let mut main_sets = vec![];
+                    let mut sub_res_idx = vec![];
+                    let mut main_res_idx = vec![];
+                    let mut sub_set_idx = vec![];
+                    let mut main_set_idx = vec![];
+                    if let Some(arr) = sub.get_mut("resources").and_then(|r| r.as_array_mut()) {
+                        let all = std::mem::take(arr);
+                        for (i, r) in all.into_iter().enumerate() {
+                            // every second unneeded member moves to the main store
+                            if !need_res.contains(&i) && i % 2 == (*cut as usize) % 2 {
+                                main_res.push(r);
+                                main_res_idx.push(i);
+                            } else {
+                                arr.push(r);
+                                sub_res_idx.push(i);
+                            }
+                        }
+                    }
+                    if let Some(arr) = sub.get_mut("annotationsets").and_then(|r| r.as_array_mut()) {
+                        let all = std::mem::take(arr);
+                        for (i, r) in all.into_iter().enumerate() {
+                            if !need_set.contains(&i) && i % 2 == (*cut as usize) % 2 {
+                                main_sets.push(r);
+                                main_set_idx.push(i);
+                            } else {
+                                arr.push(r);
+                                sub_set_idx.push(i);
+                            }
+                        }
+                    }
+                    if !main_res.is_empty() || !main_sets.is_empty() {
+                        out.label("substore_main_owns_members");
+                    }
+                    main["resources"] = serde_json::Value::Array(main_res);
+                    main["annotationsets"] = serde_json::Value::Array(main_sets);
+                    // the included sub-store is read first: its members precede the main store's own
+                    sub_res_idx.extend(main_res_idx);
+                    sub_set_idx.extend(main_set_idx);
+                    expected_order = Some((sub_res_idx, sub_set_idx));
+                }
+                let original = match &expected_order {
+                    Some((r, s_)) => permute(&original, r, s_),
+                    None => original,
+                };
                 if let (Some(arr), Some(obj)) = (doc.get("annotations").and_then(|a| a.as_array()), sub.as_object_mut()) {
                     let (first, rest) = arr.split_at(k.min(arr.len()));
                     obj.insert("annotations".into(), serde_json::Value::Array(first.to_vec()));
